@@ -198,6 +198,10 @@ func (propC11) Gen(seed uint64, tier string, idx int) *Plan {
 		// adversarial (LIFO pool + a yield right after every Put): whatever a request-scoped helper
 		// borrows from a pool must not leak one request's candidates into another's
 		p.Yields = map[string]int64{"pool.put": int64(2 * time.Millisecond)}
+		// and between the statements of the provider-route handler code itself (first use of a prefix
+		// by two requests at once: lazily built per-provider state must not be seen half-built)
+		p.StmtYieldPermille = pickS(r, []int{0, 100, 400, 1000})
+		p.StmtYieldMaxNs = int64(pickS(r, []time.Duration{200 * time.Microsecond, 2 * time.Millisecond}))
 		n := len(p.Ops)
 		for i := 0; i < n; i++ {
 			base := p.Ops[i]
@@ -205,6 +209,9 @@ func (propC11) Gen(seed uint64, tier string, idx int) *Plan {
 				continue
 			}
 			other := t.prefixes[r.Pick(len(t.prefixes))]
+			if r.Chance(500) {
+				other = prefix
+			}
 			twin := ClientOp{ID: len(p.Ops) + 1, At: base.At + r.Dur(0, 3*time.Millisecond), Method: "POST", Deadline: 15 * time.Second,
 				Path: "/olla/" + other + pickS(r, c11Paths), Body: BodySpec{Kind: "json", N: 120, Model: "m1"}}
 			p.Ops = append(p.Ops, twin)
